@@ -151,6 +151,52 @@ def run(ctx):
   ctx.leg('T', histories=len(trs), rounds=sum(len(t['events']) - 1 for t in trs))
   ctx.sample({'meta': trs[0]['meta'], 'events': trs[0]['events'][:3]})
 
+  # ---- HypCluster, exactly: every cluster must evolve as FedAvg restricted to the clients assigned to it (TLC oracle)
+  hyp_cases = []
+  attempts = 0
+  while len(hyp_cases) < (14 if big else 4) and attempts < 200:
+    attempts += 1
+    c = island.random_instance(rng, fedjax, leaves=2, dyadic=rng.random() < .6, allow_momentum=False, max_clients=5, rounds=rng.choice([2, 3, 4]))
+    if c is None or sum(1 for d in c['inst']['data'] if d) < 2:
+      continue
+    c['inst']['sopt'] = island.opt_spec('sgd', rng.choice([1, 0.5]))
+    nk = rng.choice([2, 3])
+    offs = [0.0, 2.0, -2.0][:nk]
+    rec = algs.run_rounds(fedjax, 'hyp_cluster', c, clusters=nk, offsets=offs)
+    if rec['error']:
+      ctx.violation(f'hyp-exact:exception', f'hyp_cluster: {rec["error"]} on {c["inst"]}', replay={'instance': c['inst']})
+      continue
+    ids = island.client_ids(len(c['inst']['data']))
+    assigned = [{ids.index(cid) + 1: int(d['cluster_id']) for cid, d in diag.items()} for diag in rec['diag']]
+    insts = []
+    for kk in range(nk):
+      inst = dict(c['inst'], init=[island.R(island.frac(x) + island.frac(island.R(offs[kk]))) for x in c['inst']['init']],
+                  cohorts=[[cl for cl in sorted(a) if a[cl] == kk] for a in assigned])
+      insts.append(inst)
+    if not all(island.within_island(i) for i in insts):
+      continue
+    hyp_cases.append((c, nk, rec, insts, assigned))
+  flat = [i for (_, _, _, insts, _) in hyp_cases for i in insts]
+  if flat:
+    exp = island.oracle(ctx, flat, 'hyp')
+    pos = 0
+    for (c, nk, rec, insts, assigned) in hyp_cases:
+      for kk in range(nk):
+        e = exp[pos]
+        pos += 1
+        for r in range(c['inst']['rounds']):
+          got = island.params_list(rec['states'][r + 1].cluster_params[kk])
+          want = [float(island.frac(x)) for x in e['rounds'][r]]
+          empty = not insts[kk]['cohorts'][r]
+          ctx.case(key=('hyp-exact', repr(insts[kk])), nontrivial=not empty)
+          if not np.allclose(got, want, rtol=1e-5, atol=1e-5):
+            ctx.violation('hyp-exact:cluster-params', f'round {r + 1}, cluster {kk}: params {got}, FedAvg over its own clients {insts[kk]["cohorts"][r]} gives '
+                          f'{[str(island.frac(x)) for x in e["rounds"][r]]} = {want}; assignments {assigned[r]}; instance {c["inst"]}',
+                          replay={'instance': c['inst'], 'cluster': kk, 'round': r + 1, 'assigned': assigned})
+            break
+    ctx.trace_ok(len(flat))
+  ctx.leg('T', hyp_exact_cluster_histories=len(flat))
+
   # ---- MimeLite clipping and ignore_grads: facts judged by TLC
   ev = []
   R = island.R
